@@ -105,6 +105,16 @@ Proof. exact slow_commit_below_timeout_pf. Qed.
 Theorem C20_request_timeout_is_the_codes : kv_request_timeout_ns = (request_timeout_ms * 1000000)%Z.
 Proof. exact request_timeout_matches_code. Qed.
 
+(* ---- one identity at start-up: a member does not start when ANY peer of its initial-cluster that answers belongs to another
+        etcd cluster - however many peers agree with it, wherever the foreign one stands in the walk, whoever is down ---- *)
+Theorem C20_startup_check_refuses_any_foreign_peer :
+  forall local answers id, In (Some id) answers -> id <> local -> startup_check local answers = false.
+Proof. exact startup_check_refuses_foreign_pf. Qed.
+
+Theorem C20_startup_check_accepts_iff_all_answers_agree :
+  forall local answers, startup_check local answers = true <-> (forall id, In (Some id) answers -> id = local).
+Proof. exact startup_check_spec. Qed.
+
 (* a mismatching cluster id, an already running cluster, a malformed payload: refused, nothing changes *)
 Theorem C20_refused_at_begin :
   forall s t hid p s', (hid <> scid s \/ running s = true \/ check_req p <> None) ->
@@ -226,3 +236,5 @@ Print Assumptions C20_late_answer_is_the_same_bootstrap.
 Print Assumptions C20_commit_of_a_loser_is_its_refusal.
 Print Assumptions C20_slow_commit_below_request_timeout_is_ok.
 Print Assumptions C20_request_timeout_is_the_codes.
+Print Assumptions C20_startup_check_refuses_any_foreign_peer.
+Print Assumptions C20_startup_check_accepts_iff_all_answers_agree.
